@@ -261,3 +261,142 @@ def check_equiv(V, ra, rb, clause, rnd=None, site=None, differ=None):
     if len(V.samples) < 10:
         V.sample({"pair": [ra.name, rb.name], "clause": clause, "joint_path_pairs": npairs})
     return npairs
+
+
+# ------------------------------------------------------------------ region checks
+def check_regions(V, run, regions, oracle_bad, clause, rnd=None, site=None):
+    """regions: list of (name, [(lin, lo, hi)...], expect) with expect one of
+         ('lin', Lin)            the returned value equals this form
+         ('const', v)            the returned value is the constant v
+         ('diff', Lin, lo, hi)   ret*scale - Lin within [lo,hi]   given as ('diff', scale, Lin, lo, hi)
+         ('range', lo, hi)       returned value within [lo,hi]
+         ('tz', k)               returned value is a multiple of 2^k
+       Every path whose state meets a region must satisfy the expectation on the intersection."""
+    rnd = rnd or random.Random(V.seed)
+    hit = {name: 0 for name, _, _ in regions}
+    for p in run.paths:
+        for name, cons, expect in regions:
+            s2 = feasible_with(p.state, cons)
+            if s2 is None:
+                continue
+            hit[name] += 1
+            ok, why = holds(s2, p.ret, expect)
+            V.oblige(ok)
+            if len(V.samples) < 10:
+                d = describe_path(p)
+                d.update({"wrapper": run.name, "clause": clause, "region": name, "verdict": "proved" if ok else "open"})
+                V.sample(d)
+            if ok:
+                continue
+            args, out = search(run, s2, oracle_bad, rnd)
+            d = describe_path(p)
+            if args is not None:
+                text = "%s: clause '%s' (region %s) fails for %s(%s) [%s]: %s; %s" % (
+                    run.name, clause, name, run.name, ", ".join(map(repr, args)), run.ctx.config, out_str(out), why)
+                V.violation(clause, site or run.ent.api or run.name, text,
+                            {"wrapper": run.name, "args": list(args), "config": run.ctx.config, "expected": clause,
+                             "entry_source": run.ent.source(), "params": run.ent.params, "ret": run.ent.ret})
+            else:
+                V.inconc("%s: clause '%s' region %s not proved on path %s (%s) and no concrete counter-example found" % (
+                    run.name, clause, name, d, why))
+    for name, n in hit.items():
+        if n == 0:
+            V.broke("%s: region '%s' of clause '%s' met by no path (vacuous)" % (run.name, name, clause))
+    for a in run.alarms:
+        if a.status == "inconclusive":
+            V.inconc("%s: %s at %s unresolved" % (run.name, a.kind, a.where))
+        elif a.status == "violation":
+            V.notes.append("%s: %s at %s (reported under C07)" % (run.name, a.kind, a.where))
+
+
+def holds(st, ret, expect):
+    kind = expect[0]
+    try:
+        if isinstance(ret, BoolV):
+            if kind == "const":
+                if ret.tv is not None:
+                    return (int(ret.tv) == expect[1]), "returns %s" % ret.tv
+                return False, "boolean result not decided on this region"
+            return False, "boolean result"
+        if isinstance(ret, FpV):
+            return False, "floating result"
+        lo, hi = st.rng(ret)
+        if kind == "const":
+            return (lo == hi == expect[1]), "result in [%d,%d], expected %d" % (lo, hi, expect[1])
+        if kind == "lin":
+            if ret.lin.key() == expect[1].key():
+                return True, ""
+            a, z = st.rng_lin_int(ret.lin.sub(expect[1]))
+            return (a == z == 0), "result %s differs from %s by [%d,%d]" % (ret.lin, expect[1], a, z)
+        if kind == "diff":
+            _, scale, L, dlo, dhi = expect
+            a, z = st.rng_lin_int(ret.lin.scale(scale).sub(L))
+            return (dlo <= a and z <= dhi), "result*%d - (%s) in [%d,%d], allowed [%d,%d]" % (scale, L, a, z, dlo, dhi)
+        if kind == "range":
+            return (expect[1] <= lo and hi <= expect[2]), "result in [%d,%d], allowed [%d,%d]" % (lo, hi, expect[1], expect[2])
+        if kind == "tz":
+            if ret.tz >= expect[1]:
+                return True, ""
+            L = ret.lin
+            if L.d == 1 and all(c % (1 << expect[1]) == 0 for c in list(L.t.values()) + [L.cn]):
+                return True, ""
+            return False, "result not shown to be a multiple of 2^%d" % expect[1]
+    except Infeasible:
+        return True, ""
+    return False, "unknown expectation"
+
+
+def check_bool(V, run, spec_truth, oracle_bad, clause, rnd=None, site=None):
+    """boolean wrappers: on every path, the result (decided, or a predicate) must agree with spec_truth(state)
+    which returns True/False/None for a refined state."""
+    rnd = rnd or random.Random(V.seed)
+    an = run.an
+    for p in run.paths:
+        r = p.ret
+        st = p.state
+        cases = []
+        if isinstance(r, IntV):
+            lo, hi = st.rng(r)
+            if lo == hi:
+                cases = [(bool(lo), st)]
+            elif r.pred is not None:
+                r = BoolV(None, r.pred)
+            else:
+                cases = None
+        if isinstance(r, BoolV):
+            if r.tv is not None:
+                cases = [(r.tv, st)]
+            else:
+                cases = []
+                for truth in (True, False):
+                    for refs in an.refine(st, r.pred, truth):
+                        s2 = st.fork()
+                        try:
+                            an.apply(s2, refs)
+                        except Infeasible:
+                            continue
+                        cases.append((truth, s2))
+        ok = cases is not None
+        why = ""
+        if ok:
+            for truth, s2 in cases:
+                t = spec_truth(s2)
+                if t is None or t != truth:
+                    ok = False
+                    why = "result %s on a region where the specification is %s" % (truth, "undecided" if t is None else t)
+                    break
+        V.oblige(ok)
+        if len(V.samples) < 10:
+            d = describe_path(p)
+            d.update({"wrapper": run.name, "clause": clause, "verdict": "proved" if ok else "open"})
+            V.sample(d)
+        if ok:
+            continue
+        args, out = search(run, st, oracle_bad, rnd)
+        if args is not None:
+            text = "%s: '%s' fails for %s(%s) [%s]: %s" % (run.name, clause, run.name, ", ".join(map(repr, args)), run.ctx.config, out_str(out))
+            V.violation(clause, site or run.ent.api or run.name, text,
+                        {"wrapper": run.name, "args": list(args), "config": run.ctx.config, "expected": clause,
+                         "entry_source": run.ent.source(), "params": run.ent.params, "ret": run.ent.ret})
+        else:
+            V.inconc("%s: '%s' not proved on path %s (%s)" % (run.name, clause, describe_path(p), why))
